@@ -44,6 +44,14 @@ fn observe(s: &Subject, schedule: Vec<((u64, u64), Perm)>) -> (Obs, Vec<IterEven
         let opts = CompileOptions { circuit_kind: if s.register { CircuitKind::Register } else { CircuitKind::Ssa }, consts: subject::to_consts(m), optimize_duplicate_gates: true };
         garble_lang::compile_with_options(&s.src, opts)
     });
+    // the Bristol export belongs to the run: its iteration orders are choice points as well
+    let bristol = match &r {
+        Ok(Ok(p)) => match &p.circuit {
+            CircuitType::Ssa(c) => bristol_text(c),
+            _ => String::new(),
+        },
+        _ => String::new(),
+    };
     let log = end_run();
     let obs = match r {
         Err(p) => Obs::RustPanic(p),
@@ -58,7 +66,7 @@ fn observe(s: &Subject, schedule: Vec<((u64, u64), Perm)>) -> (Obs, Vec<IterEven
                     v.sort();
                     v
                 },
-                bristol_text(c)
+                bristol
             ),
             CircuitType::Register(c) => format!("reg {:?}", c),
         }),
